@@ -107,7 +107,7 @@ PROPS['C05'] = dict(
          'length incl. 0/1, mov_next/mov_prev of a non-empty ring followed by a_list_init, set_node, swap_node of distinct non-adjacent nodes in one ring or across rings, section '
          'del_/add_/set_/swap_ on disjoint non-adjacent sections); slist: add_head/add_tail/add/del/del_head/rot/mov on two lists incl. empty and one-element lists; removal-safe iteration macros of both list kinds (all spellings) with deletions selected by a mask from inside the loop body; que: two queues, '
          'element sizes {0->1,1,2,3,4,8,12,16}, push/pull either end, insert/remove with indices up to SIZE_MAX (incl. SIZE_MAX-k, 2^63+-k, 2^32-1+k: the signed views -1, -2, ...), at() for negative/huge indices, push_sort, push+sort_fore/sort_back on sorted '
-         'contents, element swap (adjacent, non-adjacent or identity), whole-queue swap, drop, setz, foreach (macro forms), bulk push/pull of 8..80 elements, comparator styles as for the trees, and a fill-to-K / pull-a-few / drop scenario with K around the pool thresholds 8..65; after every op both rings are walked forwards and backwards against the model, element '
+         'contents, element swap (adjacent, non-adjacent or identity), whole-queue swap, drop, setz, foreach (macro forms), bulk push/pull of 8..80 elements, comparator styles as for the trees, sorted inserts with a probe key of another layout half of the time (the key is documented to be the right-hand argument), and a fill-to-K / pull-a-few / drop scenario with K around the pool thresholds 8..65; after every op both rings are walked forwards and backwards against the model, element '
          'addresses must stay fixed and a pushed slot must not alias an enqueued element. non-trivial = list: a cross-ring swap or a section op; slist: a rot/mov on length <= 1 AND one on '
          'length >= 3; que: a pull followed by >= 2 pushes (recycling) or a whole-queue swap with a non-empty side. distinct = hash of the decoded op bytes and positions',
     assumptions=COMMON_ASSUME + ['preconditions respected by construction and counted under excluded_by_construction: swaps only on distinct non-adjacent nodes/sections, a_list_mov_* only from a non-empty ring '
@@ -165,7 +165,7 @@ PROPS['C07'] = dict(
 PROPS['C09'] = dict(
     level='exploration',
     rule='three builds: a_real = double, float, long double (A_SIZE_REAL = 8 / 4 / 16). choice tape -> up to 8 sub-cases: kernel in {mulmm, mulTm, mulmT, mulTT, T2 (+back), T1 (vs T2, twice), eye1/eye2, tri1/tri2, diag+diag1, diag2, triL/triL1/triL2/triU/triU1/triU2}, '
-         'row/col/inner dimensions independent in 1..9 (thorough: 1..20), one case in 16 with dimensions from {15..140}, contents from three classes (small integers, integers with signed zeros, reals with exponents 2^-8..2^8, in a quarter of the fills stretched to 2^+-24 / 2^+-400 / 2^+-7200 by type - beyond the double range in the long double build); in a quarter of the product cases the two read-only operands share storage (the smaller is the leading part of the larger), in another quarter X, Y and Z are carved back to back in any order out of one block; inputs and outputs are '
+         'row/col/inner dimensions independent in 1..9 (thorough: 1..20), one case in 16 with dimensions from {15..140}, contents from three classes (small integers, integers with signed zeros, reals with exponents 2^-8..2^8, in a quarter of the fills stretched to 2^+-24 / 2^+-400 / 2^+-7200 by type - beyond the double range in the long double build); in a quarter of the product cases the two read-only operands share storage (the smaller is the leading part of the larger), in another quarter X, Y and Z are carved back to back in any order out of one block, in another the operands lie in read-only memory; inputs and outputs are '
          'exact-size heap blocks under ASan, outputs pre-filled with a signalling value so that unwritten cells are detected; products compared exactly with a long double triple loop for the integer classes and within '
          '4*(k+1)*u*sum|x||y| for reals; all other kernels compared bitwise with the pattern written from the header text. non-trivial = rows != cols for a rectangular kernel, three pairwise different '
          'dimensions for a product, or T1 on n >= 3; distinct = hash of (kernel, dimensions, contents)',
@@ -209,7 +209,7 @@ PROPS['C08'] = dict(
 PROPS['C17'] = dict(
     level='exploration',
     rule='choice tape -> CRC case (width 8/16/32/64, bit order, polynomial from published ones, arbitrary incl. top bit set, the bit reversal of a tape word, or an integer literal harvested from the library source / its bit reversal, arbitrary initial value, message of 0..300 bytes: digits, arbitrary, high bytes, text-like, or records of 2/4/8-byte machine words in either byte order from a boundary pool with copy / negation / complement / +1 of the predecessor and zero runs; two split points) or hash case '
-         '(bkdr/sdbm, initial value, message, split point). CRC oracle: all 256 table entries and the value equal bit-by-bit polynomial division in the same bit order (reference written from the definition, own bit '
+         '(bkdr/sdbm, initial value, message, split point). The table buffer starts with chosen contents (pattern, zeros, table of the other bit order, the right table with all but three entries damaged); table and message are also passed in read-only memory. CRC oracle: all 256 table entries and the value equal bit-by-bit polynomial division in the same bit order (reference written from the definition, own bit '
          'reflection), three-piece feeding with carried value = one shot, and the opposite bit order on bit-reflected data/value gives the bit-reflected result. Hash oracle: multiply-add definition in 32-bit arithmetic, '
          'hash(ab,v) = hash(b, hash(a,v)), NUL-terminated form = length form on the prefix before the first NUL, mixed feeding. Messages live in exact-size heap blocks (ASan). Enumeration: one message of 2^32 + d bytes per routine (7 CRC updates, 4 hash forms; a 2 MiB block of non-zero bytes mapped 2049 times), at once against three pieces shorter than 2^32. non-trivial = message >= 2 bytes containing '
          'a byte outside 0x30-0x39 and a non-zero initial value; distinct = hash of (kind, width, order, polynomial, initial value, message)',
@@ -244,10 +244,10 @@ PROPS['C18'] = dict(
 PROPS['C16'] = dict(
     level='exploration',
     rule='two builds: a_real = double and float (exactness limit 2^52 resp. 2^23, ulps of the type; the strict-interior window of the generators is [1e-6, 1e5] in the float build, where 1 - 1/(2 pi 1e12) is not representable). choice tape -> one of: (tf) orders num_n, den_n in 0..8, integer coefficients |c|<=3, two integer input sequences |x|<=5 of length <= 24, a zero() position, scalars and a delay: outputs compared exactly with an '
-         '__int128 reference recurrence while every partial sum stays below 2^52, zero+rerun compared with a freshly initialised filter, linearity and time invariance exact on integers, delay lines in exact-size dirty heap blocks, a new numerator or denominator (0..8 coefficients) installed on the live filter with a_tf_set_num / a_tf_set_den (replaced side restarts from zero, the other side keeps its history), the C++ member init/set_num/set_den/call operator/zero on a twin; '
+         '__int128 reference recurrence while every partial sum stays below 2^52, zero+rerun compared with a freshly initialised filter, linearity and time invariance exact on integers, delay lines in exact-size dirty heap blocks, a new numerator or denominator (0..8 coefficients) installed on the live filter with a_tf_set_num / a_tf_set_den (replaced side restarts from zero, the other side keeps its history), the C++ member init/set_num/set_den/call operator/zero on a twin, coefficient vectors of the primary filter in read-only memory; '
          '(lpf) alpha from {0, 1, j/2^m, 2^-k, 1-2^-k, uniform}, integer or real inputs: output inside the range of {0, inputs so far} (exact for the dyadic class, 4 ulp otherwise), constant input: monotone approach and '
          'settling no slower than (1-alpha)^k; (hpf) arbitrary prefix then a constant input: |output| non-increasing and bounded by alpha^k of the step response up to the rounding of (output+x)-input, zero = fresh; lpf/hpf member gen / call operator / zero bit-equal to the C forms; '
-         '(gen) fc, ts positive doubles over the WHOLE exponent range (subnormal .. near DBL_MAX), half of them steered so that fc*ts lies in [1e-12, 1e12]: results in [0,1], strictly inside and within 4 ulp of the '
+         '(gen) fc, ts positive doubles over the WHOLE exponent range (subnormal .. near DBL_MAX), half of them steered so that fc*ts lies in [1e-12, 1e12]: results in [0,1], macro forms A_LPF_GEN / A_HPF_GEN / A_LPF_1/2 / A_HPF_1/2 with expressions as arguments equal to the functions, strictly inside and within 4 ulp of the '
          'long double formula when the product is in the window. non-trivial = tf with num_n,den_n >= 2 and >= 3 distinct consecutive inputs or a mid-history zero with num_n != den_n; lpf/hpf with 0 < alpha < 1; every gen case; '
          'distinct = hash of decoded parameters and inputs',
     assumptions=COMMON_ASSUME + ['tf exactness is asserted only while all partial sums stay below 2^52 (longer histories are cut and counted)',
@@ -269,7 +269,7 @@ PROPS['C15'] = dict(
          '2^-10..2^10; one case in four is a nearly degenerate request: the boundary data of a motion of degree <= 3 with one datum moved by a relative 1e-1..1e-15 or not at all) or a polynomial (n in 0..13 coefficients, integer or real, evaluation point). Oracle in exact rational arithmetic (GMP mpq, doubles convert exactly): pos(0)=p0 and vel(0)=v0 exactly, acc(0)/jer(0) '
          'within 2 ulp; stored coefficients against the exactly solved boundary-value problem and end values of the stored polynomial against the requested ones within 16384*u*falling(deg,k)*S/T^k (S = sum of |boundary data| in position units); '
          'accessor outputs = exact derivative coefficients of the stored polynomial (2 ulp), vel/acc/jer(x) = exact derivatives of the stored position polynomial within the Horner bound at 4 query times (inside, at and outside [0,T]); '
-         'the C++ member gen/pos/vel/acc/jer/c0..c3 of the three structures give bit-identical coefficients and values; a_poly_eval/evar = exact ascending/descending value within the Horner bound, n = 0 gives 0, evar(swap(a)) = eval(a) and swap twice = identity bit for bit. '
+         'the C++ member gen/pos/vel/acc/jer/c0..c3 of the three structures give bit-identical coefficients and values; the evaluation routines also run on a read-only copy of the coefficients; a_poly_eval/evar = exact ascending/descending value within the Horner bound, n = 0 gives 0, evar(swap(a)) = eval(a) and swap twice = identity bit for bit. '
          'non-trivial = all boundary derivatives non-zero and T != 1, or a polynomial with n >= 1; distinct = hash of decoded parameters',
     assumptions=COMMON_ASSUME + ['durations in [2^-10, 2^10] and boundary magnitudes <= 2^10 (no intermediate overflow; the statement\'s "many orders of magnitude")',
                                  'tolerance constant 16384 on u*scale is about 25x the largest ratio seen on the unchanged tree (evidence: metrics)'],
@@ -336,7 +336,7 @@ PROPS['C12'] = dict(
          'zero, or a gain change. After every step: outmin <= out <= outmax, all state fields finite; plain/exact: output, integrator and cached fields equal a reference written from the documented difference equations exactly (real class: '
          'one-step equation within 64 ulp of the term magnitudes); integrator monotone once outside its clamp and overshooting by at most one increment; an incremental twin fed the same positional history agrees exactly for as long as no limit '
          'is active; zero then H2 equals a freshly initialised controller on H2 bit for bit (plain and neuron, the neuron keeping its present weights); a fuzzy controller with an all-zero rule base equals the plain controller exactly; fuzzy tables/operators '
-         'as in C13 with the scratch buffer sized for all sets, the gain schedule compared with the reference weighted mean after every step, the operator installed in four ways (setter, pointer returned by a_pid_fuzzy_opr, the fuzzy.h function named in the executor, a function of the caller), set_rule (another subset of the consequent tables present) and set_opr on the live controller without re-issuing the base gains; every history is also driven through the C++ member functions of a_pid / a_pid_fuzzy / a_pid_neuro on a twin object and compared bit for bit. non-trivial = history in which an output or integrator limit became active and inactive again, or a zero occurred mid-history; distinct = hash of configuration and decoded steps',
+         'as in C13 with the scratch buffer sized for all sets, the gain schedule compared with the reference weighted mean after every step, the membership and rule tables in read-only memory in half of the cases, the operator installed in four ways (setter, pointer returned by a_pid_fuzzy_opr, the fuzzy.h function named in the executor, a function of the caller), set_rule (another subset of the consequent tables present) and set_opr on the live controller without re-issuing the base gains; every history is also driven through the C++ member functions of a_pid / a_pid_fuzzy / a_pid_neuro on a twin object and compared bit for bit. non-trivial = history in which an output or integrator limit became active and inactive again, or a zero occurred mid-history; distinct = hash of configuration and decoded steps',
     assumptions=COMMON_ASSUME + ['inputs obey the quantifier: ki >= 0, summin <= 0 <= summax, outmin <= outmax, magnitudes <= 1e6 so that no intermediate overflows',
                                  'the reference model follows the equations documented in pid.h; on the exact class all arithmetic is exact, so equality is required'],
     units=lambda tier, seed: [Unit(nm, 'exec/C12.cc', ['a.c', 'math.c', 'mf.c', 'fuzzy.c', 'pid.c', 'pid_fuzzy.c', 'pid_neuro.c'], defs=config_defs(real), tape_len=500,
@@ -377,7 +377,7 @@ PROPS['C11'] = dict(
     rule='one executor binary per build configuration: a subset of the 7 switches A_HAVE_ASINH/ACOSH/ATANH/EXPM1/LOG1P/ATAN2/HYPOT (libm or fallback each) x real type (double, float) passed as -D flags to the unmodified sources; '
          'quick: all-on, all-off and two seeded random subsets for both types, thorough: all 128 subsets x 2 types. Each tape yields up to 6 sub-cases: asinh/acosh/atanh/expm1/log1p/atan2 on arguments log-uniform over the whole exponent '
          'range of the type (both signs, 1+tiny for acosh, near 0 / +-0.5 / +-1 for atanh, > -1 for log1p, all quadrants and exact axis points for atan2) plus a dictionary of formula-switch values +-4 ulp; norms of 2, 3, n <= 40 '
-         '(strided) components mixing magnitudes whose squares over/underflow (incl. subnormal components; components sharing one binade at / next to the square roots of the largest and smallest normal number), norms of 1000..300001 components of one common magnitude around sqrt(max), sqrt(min) or anywhere in the exponent range (rapidcheck processes only; compensated long double reference), cart2pol/cart2sph/pol2cart/sph2cart; sum/sum1/sum2/mean/dot and strided forms on integer (exact) and real data, also with both dot operands in one block (the same vector twice, x and y interleaved); copy/swap/fill/zero/push/roll and block '
+         '(strided) components mixing magnitudes whose squares over/underflow (incl. subnormal components; components sharing one binade at / next to the square roots of the largest and smallest normal number), norms of 1000..300001 components of one common magnitude around sqrt(max), sqrt(min) or anywhere in the exponent range (rapidcheck processes only; compensated long double reference), cart2pol/cart2sph/pol2cart/sph2cart; sum/sum1/sum2/mean/dot and strided forms on integer (exact) and real data, also with both dot operands in one block (the same vector twice, x and y interleaved) and on read-only inputs; copy/swap/fill/zero/push/roll and block '
          'forms on lengths 0..20 against std::rotate/copy models in exact-size heap blocks. Oracle: glibc long double functions (64-bit mantissa); accept |got-ref| <= K*u*|ref| (u = 2^-53 / 2^-24), norms (n+4)*u and finite whenever the '
          'true value is representable; atan2(0, x<0) accepts +-pi. non-trivial = argument outside [1e-3, 1e3] or on an axis, extreme norm mix, reductions/shifts with n >= 2; distinct = (configuration, function, argument bits)',
     assumptions=COMMON_ASSUME + ['reference: glibc asinhl/acoshl/atanhl/expm1l/log1pl/atan2l/sqrtl in x87 long double, whose own error (<= 1 ulp of 2^-64) is 2^-10 of the acceptance bound',
